@@ -74,7 +74,7 @@ class LookupTask(T.Task):
 def specs():
     from schwifty import registry
     idx = registry.get("bank_code")
-    multi = [k for k, v in idx.items() if len(v) > 1 and not v[0]["primary"] and any(e["primary"] for e in v)][:3]
+    multi = [k for k, v in idx.items() if len(v) > 1 and not v[0].get("primary") and any(e.get("primary") for e in v)][:3]
     out = []
     for cc, code in multi + [("DE", "43060967"), ("FR", "30004"), ("DE", "01010101")]:
         out.append(("props.lookuptasks", "LookupTask", ("candidates", cc, code)))
